@@ -132,6 +132,8 @@ func c06Worker() int {
 // of the family, measuring EVERY call; it answers at the first call over the
 // bound (or over the wall limit), else after the last iteration.
 // reply: S <alloc> <wall_ns> <iteration> <entry index> <which: 0=A 1=B> <max alloc of any call> <calls>
+const c06Counter = "@COUNT@@"
+
 func c06WorkerSoak(fam string, ei int, req []byte) string {
 	if len(req) < 8 {
 		return "S 0 0 0 0 0 0 0"
@@ -145,6 +147,14 @@ func c06WorkerSoak(fam string, ei int, req []byte) string {
 		la = len(req) - 8
 	}
 	docs := [2][]byte{append([]byte{}, req[8:8+la]...), append([]byte{}, req[8+la:]...)}
+	// a history of DIFFERENT inputs: every occurrence of the 8-byte counter
+	// marker in A is replaced by the iteration number (8 decimal digits)
+	var marks []int
+	for i := 0; i+len(c06Counter) <= len(docs[0]); i++ {
+		if string(docs[0][i:i+len(c06Counter)]) == c06Counter {
+			marks = append(marks, i)
+		}
+	}
 	eps := entriesOf(fam)
 	base := 0
 	if ei != 0xffff {
@@ -155,6 +165,9 @@ func c06WorkerSoak(fam string, ei int, req []byte) string {
 	var maxAlloc uint64
 	calls := 0
 	for it := 0; it < k; it++ {
+		for _, at := range marks {
+			copy(docs[0][at:], fmt.Sprintf("%08d", it))
+		}
 		for w, d := range docs {
 			if w == 1 && len(d) == 0 {
 				continue
@@ -1476,6 +1489,9 @@ type c06SoakIn struct {
 	A      hx     `json:"input_a_hex"`
 	B      hx     `json:"input_b_hex"`
 	Desc   string `json:"desc,omitempty"`
+	// Counter: A contains the counter marker - every iteration decodes a
+	// DIFFERENT input (recorded for the reader; the worker finds the marker)
+	Counter bool `json:"a_differs_per_iteration,omitempty"`
 }
 
 type c06SoakRes struct {
@@ -1662,6 +1678,48 @@ func soakDocs() []c06SoakIn {
 	m := baseValid(P2, 1)
 	tok := icbor.Encode(icbor.Map(append(bodyPairs(m), icbor.P(icbor.U(265), icbor.Tstr("http://example.com/verif/not-registered/"+strings.Repeat("x", 900))))...))
 	r = append(r, c06SoakIn{Family: "cbor", A: tok, B: baseValid(P2, 1).WireBytes(), Desc: "token of an unregistered 940-character profile / small P2 token"})
+	// histories of DIFFERENT small inputs (the counter marker becomes the
+	// iteration number): what is remembered per distinct value adds up
+	for _, p := range []Prof{P1, P2} {
+		small := baseValid(p, 1).WireBytes()
+		smallJ := []byte(modelJN(baseValid(p, 1)).String())
+		body := bodyPairs(baseValid(p, 1))
+		for _, name := range []string{"http://example.com/verif/unregistered/" + c06Counter, "PSA_IOT_PROFILE_" + c06Counter} {
+			for _, key := range []int64{265, -75000} {
+				if (key == 265) != (p == P2) {
+					continue
+				}
+				tok := icbor.Encode(icbor.Map(append(append([][2]*icbor.Node{}, body...), icbor.P(icbor.I(key), icbor.Tstr(name)))...))
+				d := fmt.Sprintf("%s claims declaring (label %d) a different unregistered profile each time (%s) / small %s token", p, key, name, p)
+				r = append(r, c06SoakIn{Family: "cbor", A: tok, B: small, Desc: d, Counter: true}, c06SoakIn{Family: "cose", A: icbor.Encode(c05Envelope(tok)), B: icbor.Encode(c05Envelope(small)), Desc: "signed: " + d, Counter: true})
+			}
+			for _, member := range []string{"eat-profile", "psa-profile"} {
+				if (member == "eat-profile") != (p == P2) {
+					continue
+				}
+				r = append(r, c06SoakIn{Family: "json", A: []byte(`{"` + member + `":"` + name + `"}`), B: smallJ, Counter: true,
+					Desc: fmt.Sprintf("a JSON object declaring (%s) a different unregistered profile each time (%s) / small %s document", member, name, p)})
+			}
+		}
+		// valid tokens that differ in one value / one unknown label each time
+		m := baseValid(p, 1)
+		m.VSI = sp("https://verifier.example/" + c06Counter)
+		r = append(r, c06SoakIn{Family: "cbor", A: m.WireBytes(), B: small, Counter: true, Desc: fmt.Sprintf("valid %s token with a different verification-service indicator each time / small token", p)},
+			c06SoakIn{Family: "enc-cbor", A: m.WireBytes(), B: small, Counter: true, Desc: fmt.Sprintf("valid %s token with a different verification-service indicator each time / small token", p)})
+		if c, ok := m.BuildLiteral(); ok {
+			if js, err := json.Marshal(c); err == nil {
+				r = append(r, c06SoakIn{Family: "json", A: js, B: smallJ, Counter: true, Desc: fmt.Sprintf("valid %s JSON claims with a different verification-service indicator each time / small document", p)},
+					c06SoakIn{Family: "enc-json", A: js, B: smallJ, Counter: true, Desc: fmt.Sprintf("valid %s JSON claims with a different verification-service indicator each time / small document", p)})
+			}
+		}
+		tok := icbor.Encode(icbor.Map(append(baseValid(p, 1).WirePairs(), icbor.P(icbor.Tstr("vendor-"+c06Counter), icbor.U(1)))...))
+		r = append(r, c06SoakIn{Family: "cbor", A: tok, B: small, Counter: true, Desc: fmt.Sprintf("valid %s token with a different unknown text label each time / small token", p)},
+			c06SoakIn{Family: "enc-cbor", A: tok, B: small, Counter: true, Desc: fmt.Sprintf("valid %s token with a different unknown text label each time / small token", p)})
+		o := modelJN(baseValid(p, 1))
+		o.keys, o.vals = append(o.keys, "vendor-"+c06Counter), append(o.vals, jStr("v"))
+		r = append(r, c06SoakIn{Family: "json", A: []byte(o.String()), B: smallJ, Counter: true, Desc: fmt.Sprintf("valid %s JSON claims with a different unknown member each time / small document", p)},
+			c06SoakIn{Family: "enc-json", A: []byte(o.String()), B: smallJ, Counter: true, Desc: fmt.Sprintf("valid %s JSON claims with a different unknown member each time / small document", p)})
+	}
 	for i := range r {
 		r[i].Entry = -1
 	}
@@ -1669,7 +1727,7 @@ func soakDocs() []c06SoakIn {
 }
 
 func TestC06_Soak(t *testing.T) {
-	st := NewStats("C06", "TestC06_Soak", "histories, measured in a FRESH single-core (GOMAXPROCS=1) worker process per history: two inputs A and B (A = a valid token / signed token / JSON claims-set of either profile carrying 230 (thorough: also 3000) entries the profile does not know under integer or text labels, or the same with one claim of a wrong type so that every decode of it fails, or a token of an unregistered profile with a 940-character name; B = a small ordinary document) are decoded alternately k times (quick 1600, thorough 12000; a quarter of that for the 3000-entry inputs) by ONE entry point of the family - one history per entry point (claims decoders, per-type unmarshalers, extension types that go through the populate helpers, populate helpers directly) - and, k/4 times, through ALL entry points of the family in turn (a mixed workload, where calls that fail sit between calls that succeed); EVERY single call is measured (TotalAlloc delta, wall time). Violation: any call of the history allocates more than 1 MiB + 1 KiB per byte of ITS input or takes > 5 s (confirmed in a second fresh history) or the process dies with an out-of-memory error - i.e. what a call allocates depends on what the process decoded before. Non-trivial = every history (k >= 2, many unknown entries); distinct = family + both inputs")
+	st := NewStats("C06", "TestC06_Soak", "histories, measured in a FRESH single-core (GOMAXPROCS=1) worker process per history: two inputs A and B (A = a valid token / signed token / JSON claims-set of either profile carrying 230 (thorough: also 3000) entries the profile does not know under integer or text labels, or the same with one claim of a wrong type so that every decode of it fails, or a token of an unregistered profile with a 940-character name; B = a small ordinary document) are decoded alternately k times (quick 1600, thorough 12000; a quarter of that for the 3000-entry inputs) by ONE entry point of the family - one history per entry point (claims decoders, per-type unmarshalers, extension types that go through the populate helpers, populate helpers directly) - and, k/4 times, through ALL entry points of the family in turn (a mixed workload, where calls that fail sit between calls that succeed); EVERY single call is measured (TotalAlloc delta, wall time). Also histories of DIFFERENT inputs (12 x as many iterations): A carries a counter that changes with every iteration - in the name of an unregistered profile it declares (labels 265 / -75000, members eat-profile / psa-profile; URI, PSA_IOT_PROFILE_n and bare forms), in the verification-service indicator of a valid token, in an unknown text label / member name. Violation: any call of the history allocates more than 1 MiB + 1 KiB per byte of ITS input or takes > 5 s (confirmed in a second fresh history) or the process dies with an out-of-memory error - i.e. what a call allocates depends on what the process decoded before. Non-trivial = every history (k >= 2, many unknown entries); distinct = family + both inputs")
 	st.Require = []string{"family=cbor", "family=cose", "family=json", "family=enc-cbor", "family=enc-json"}
 	defer st.Flush(t)
 	k := 1600
@@ -1691,7 +1749,13 @@ func TestC06_Soak(t *testing.T) {
 			if idx%shards != shard {
 				continue
 			}
+			if doc.Counter && e >= 0 && !strings.HasPrefix(eps[e].Name, "Decode") && !strings.HasPrefix(eps[e].Name, "PopulateStruct") && !strings.Contains(eps[e].Name, "Ext") {
+				continue // different-input histories: the dispatching decoders, the extension types and the populate helpers
+			}
 			in := doc
+			if doc.Counter {
+				in.B = nil
+			}
 			in.Entry = e
 			in.K = k
 			class := "soak-one-entry-point"
@@ -1703,6 +1767,11 @@ func TestC06_Soak(t *testing.T) {
 			}
 			if len(in.A) > 8192 {
 				in.K /= 4
+			}
+			if in.Counter {
+				// small inputs, and what such a history leaves behind per call is small: many more calls
+				in.K *= 12
+				class += "/different-input-each-time"
 			}
 			v, infra, res := c06SoakVerdict(in)
 			if infra != "" {
